@@ -15,6 +15,7 @@ def cases(tier, seed):
     yield dict(fn="alg.earlystop", args=dict(scenario="gm_accelerated_box"))
     yield dict(fn="alg.earlystop", args=dict(scenario="pdhg_l1_zero_init", sigma=0.01, further_updates=2000))
     yield dict(fn="alg.gs_counter", args=dict(max_iter=6))
+    yield dict(fn="app.run_loop", args=dict())
 
 
 def groups(tier, seed):
